@@ -370,9 +370,11 @@ Lemma count_outside_cells : forall d c, ~ In c (cells d) -> count_cell d c = 0%N
 Proof.
   intros d c H. unfold cells in H. split.
   - unfold count_cell.
-    rewrite (filter_none _ (fun kv : rkey * N => fst (fst kv)) c (d_rows d)) by (intros Hi; apply H; apply in_or_app; left; exact Hi).
-    rewrite (filter_none _ (fun k : rkey => fst k) c (d_tombs d)) by (intros Hi; apply H; apply in_or_app; right; apply in_or_app; left; exact Hi).
-    reflexivity.
+    match goal with |- context [filter ?f (d_rows d)] => assert (Hr : filter f (d_rows d) = []) end.
+    { apply (filter_none _ (fun kv : rkey * N => fst (fst kv)) c (d_rows d)). intros Hi. apply H. apply in_or_app. left. exact Hi. }
+    match goal with |- context [filter ?f (d_tombs d)] => assert (Ht : filter f (d_tombs d) = []) end.
+    { apply (filter_none _ (fun k : rkey => fst k) c (d_tombs d)). intros Hi. apply H. apply in_or_app. right. apply in_or_app. left. exact Hi. }
+    rewrite Hr, Ht. reflexivity.
   - apply nlookup_not_in. intros Hi. apply H. apply in_or_app. right. apply in_or_app. right. exact Hi.
 Qed.
 Lemma loginv_b_sound : forall d, loginv_b d = true -> LogInv d.
@@ -483,15 +485,142 @@ Proof.
   pose proof (triples_flat item (fun x => ack_code (it_ack x)) (fun x => live (it_req x)) (fun x => vis dr (it_req x)) (rr_items r)
                 (flat_map (fun q => [0; live q; vis dr q]) unsent ++ tail7 ++ [zb (wf_case (CRun init batches unsent f))])) as T1.
   pose proof (triples_flat req (fun _ => 0) live (vis dr) unsent (tail7 ++ [zb (wf_case (CRun init batches unsent f))])) as T2.
-  rewrite (triples_app _ _ _ _ _ _ _ T1 T2).
+  unfold live in T1, T2. cbv beta in T1, T2. rewrite (triples_app _ _ _ _ _ _ _ T1 T2).
   unfold tail7. cbn [app].
   assert (Hl1 : loginv_b d' = true) by (apply loginv_b_complete; exact Hlog).
   assert (Hl2 : consistent_b dr = true) by (apply consistent_b_complete; apply recompute_consistent; exact Hlog).
   rewrite Hl1, Hl2. cbn [zb Z.eqb Pos.eqb andb]. rewrite !andb_true_r.
   rewrite forallb_app. apply andb_true_iff. split; apply forallb_forall; intros t Ht; apply in_map_iff in Ht; destruct Ht as [x [E Hx]]; subst t.
   - rewrite Forall_forall in Hacks. destruct (Hacks x Hx) as [Ha1 [Ha2 Ha3]].
-    unfold live. rewrite (vis_data dr d' _ Hdr).
+    rewrite (vis_data dr d' _ Hdr).
     apply (req_ok_item (it_ack x) (rr_alive r) (vis d' (it_req x)) (it_committed x) (quiet (it_req x))); auto.
-  - unfold live. rewrite (vis_data dr d' _ Hdr). rewrite (Hvis2 x Hx).
+  - rewrite (vis_data dr d' _ Hdr). rewrite (Hvis2 x Hx).
     destruct (quiet x); destruct (rr_alive r); reflexivity.
 Qed.
+
+(* ------------------------------------------------------------------ statements for props/C13.v *)
+(* (1) one call of process_batch_write under ANY fault schedule, ANY skeleton *)
+Theorem batch_atomic : forall sk sched n st b st' o n' last,
+  run_batch sk sched n st b = (st', o, n', last) ->
+  (w_disk st' = w_disk st \/ w_disk st' = txn_body sk b (w_disk st)) /\
+  (o = Returned true -> w_disk st' = txn_body sk b (w_disk st)) /\
+  (o = Returned false -> w_disk st' = w_disk st) /\
+  (forall c, o = Died c -> w_disk st' = if c then txn_body sk b (w_disk st) else w_disk st).
+Proof.
+  intros sk sched n st b st' o n' last H.
+  pose proof (run_batch_atomic sk sched n st b) as Hat. cbv zeta in Hat. rewrite H in Hat. cbn [fst snd] in Hat.
+  destruct o as [[|]|[|]]; cbn [batch_post] in Hat.
+  - destruct Hat as [_ [Hd _]]. split; [right; exact Hd|]. split; [intros _; exact Hd|]. split; [discriminate|intros c E; discriminate].
+  - split; [left; exact Hat|]. split; [discriminate|]. split; [intros _; exact Hat|intros c E; discriminate].
+  - destruct Hat as [_ [Hd _]]. split; [right; exact Hd|]. split; [discriminate|]. split; [discriminate|].
+    intros c E. inversion E. subst. exact Hd.
+  - split; [left; exact Hat|]. split; [discriminate|]. split; [discriminate|].
+    intros c E. inversion E. subst. exact Hat.
+Qed.
+
+(* (2) acknowledged Ok => the batch was committed; no exception *)
+Lemma ack_req_ok_committed : forall sk ok au r, sk_ok sk = true -> fst (ack_req sk ok au r) = Some true -> ok = true.
+Proof.
+  intros sk ok au r Hok H.
+  destruct (sk_ok_arm sk (r_kind r) Hok) as [a [Ha [Hkind Hg]]].
+  unfold ack_req in H. rewrite Ha in H. rewrite (ag_pol_ok a Hg), (ag_pol_err a Hg) in H. cbn [negb] in H.
+  destruct ok; [reflexivity|]. destruct (a_err a); cbn [fst] in H; discriminate.
+Qed.
+Lemma ack_batch_ok_committed : forall sk ok b au, sk_ok sk = true ->
+  Forall (fun x => it_ack x = Some true -> it_committed x = true) (fst (ack_batch sk ok au b)).
+Proof.
+  intros sk ok. induction b as [|r b IH]; intros au Hok; cbn [ack_batch]; [constructor|].
+  pose proof (ack_req_ok_committed sk ok au r Hok) as H1.
+  destruct (ack_req sk ok au r) as [a au1]. specialize (IH au1 Hok).
+  destruct (ack_batch sk ok au1 b) as [l au2]. cbn [fst] in *. constructor; [|exact IH].
+  unfold it_ack, it_committed. cbn [fst snd]. exact H1.
+Qed.
+Theorem ack_after_commit : forall sk sched bs n st au, sk_ok sk = true ->
+  Forall (fun x => it_ack x = Some true -> it_committed x = true) (rr_items (run_batches sk sched n st au bs)).
+Proof.
+  intros sk sched. induction bs as [|b bs IH]; intros n st au Hok; cbn [run_batches]; [constructor|].
+  destruct (run_batch sk sched n st b) as [[[st' o] n'] last]. destruct o as [ok|c].
+  - pose proof (ack_batch_ok_committed sk ok b au Hok) as H1.
+    destruct (ack_batch sk ok au b) as [items au']. cbn [fst rr_items] in *. apply Forall_app. split; [exact H1|apply IH; exact Hok].
+  - cbn [rr_items]. apply Forall_app. split; apply Forall_forall; intros x Hx; apply in_map_iff in Hx;
+      destruct Hx as [q [E _]]; subst x; unfold it_ack; cbn [fst snd]; discriminate.
+Qed.
+
+(* (3) marks inside the transaction => the log stays repairable: under any schedule (kills and failures
+   anywhere, any number), the committed log keeps the invariant and the start-up recompute makes it consistent *)
+Theorem log_repairable : forall sk sched bs n st au,
+  (forall r, In r (concat bs) -> Covers sk r) -> LogInv (w_disk st) ->
+  LogInv (w_disk (rr_state (run_batches sk sched n st au bs))) /\
+  Consistent (restart (rr_state (run_batches sk sched n st au bs))).
+Proof.
+  intros sk sched bs n st au Hc Hi. pose proof (run_batches_loginv sk sched bs n st au Hc Hi) as H.
+  split; [exact H|]. unfold restart. apply recompute_consistent. exact H.
+Qed.
+
+(* (4) the whole property for EVERY schedule, outside the known class *)
+Theorem every_schedule : forall sk sched batches unsent d0,
+  sk_ok sk = true ->
+  NoDup (map op_key (flat_map req_ops (concat batches ++ unsent))) ->
+  (forall o, In o (flat_map req_ops (concat batches ++ unsent)) -> reflected d0 o = false) ->
+  (forall q, In q (concat batches ++ unsent) -> req_shape q = true) ->
+  (forall q, In q (concat batches) -> Covers sk q) ->
+  LogInv d0 ->
+  k2 false (concat batches) = false ->
+  let r := run_batches sk sched 0%N {| w_disk := d0; w_stuck := false |} true batches in
+  let d' := w_disk (rr_state r) in
+  map it_req (rr_items r) = concat batches /\
+  (forall x, In x (rr_items r) ->
+     vis d' (it_req x) = (if it_committed x || quiet (it_req x) then 1 else 0) /\      (* all or nothing *)
+     vis (restart (rr_state r)) (it_req x) = vis d' (it_req x) /\                       (* same after restart *)
+     (it_ack x = Some true -> it_committed x = true) /\                                 (* acknowledged => applied *)
+     (it_ack x = Some false -> it_committed x = false)) /\                              (* reported failed => not applied *)
+  (forall q, In q unsent -> vis d' q = if quiet q then 1 else 0) /\
+  LogInv d' /\ Consistent (restart (rr_state r)).
+Proof.
+  intros sk sched batches unsent d0 Hok Hnd Hfresh Hshape Hcov Hinv Hk2. cbv zeta.
+  set (st0 := {| w_disk := d0; w_stuck := false |}).
+  pose proof (run_batches_structure sk sched batches 0%N st0 true) as Hstr. cbv zeta in Hstr.
+  destruct Hstr as [Hreqs Hdata]. cbn [w_disk st0] in Hdata.
+  pose proof (run_batches_acks sk sched batches 0%N st0 true false Hok Hk2 ltac:(discriminate)) as Hacks.
+  pose proof (log_repairable sk sched batches 0%N st0 true Hcov Hinv) as [Hl1 Hl2].
+  rewrite <- Hreqs in Hnd, Hfresh, Hshape.
+  destruct (vis_final sk _ unsent d0 _ Hok Hdata Hnd Hfresh Hshape) as [Hv1 Hv2].
+  split; [exact Hreqs|]. split; [|split; [exact Hv2|split; assumption]].
+  intros x Hx. rewrite Forall_forall in Hacks. destruct (Hacks x Hx) as [Ha1 [Ha2 _]].
+  split; [apply Hv1; exact Hx|]. split; [apply vis_data; apply data_eq_recompute|]. split; assumption.
+Qed.
+
+(* (5) K1 as the code is: once the connection is left inside a transaction, every later batch is reported
+   failed and changes nothing, until the process restarts *)
+Theorem wedged_forever : forall sk sched n st b st' o n' last,
+  w_stuck st = true -> run_batch sk sched n st b = (st', o, n', last) ->
+  st' = st /\ (o = Returned false \/ o = Died false).
+Proof.
+  intros sk sched n st b st' o n' last Hs H. unfold run_batch in H. rewrite Hs in H.
+  destruct (sched (n + 1)%N); unfold ack_point in H;
+    try (destruct (sched (n + 1 + 1)%N); inversion H; subst; auto); inversion H; subst; auto.
+Qed.
+Definition k1_req : req := mkReq KMutation [[Put 1 7 7]] [1%N] ANone.
+Lemma wedge_reachable :
+  exists sched, let '(st', o, _, _) := run_batch code_skeleton sched 0 {| w_disk := init_disk []; w_stuck := false |} [k1_req] in
+                w_stuck st' = true /\ o = Returned false.
+Proof. exists (sched_of (FFail 4)). vm_compute. split; reflexivity. Qed.
+
+(* (6) the known class is real: closed witness = the directed case the harness replays on the real code *)
+Definition k2_witness : c13case :=
+  CRun [(20000, 20000, 1); (20001, 20001, 1); (20100, 20100, 1); (20101, 20101, 2)]%N
+       [[mkReq KWrite [[Put 0 30900 1]] [] ANone];
+        [mkReq KRoomMutation [[Put 0 40061 1]] [] (ANeeds false true);
+         mkReq KRoomMutation [[Put 0 40062 1; Put 2 63 63]] [2%N] (ANeeds true false)]] [] FNone.
+Lemma k2_refutes : wf_case k2_witness = true /\ spec_C13 k2_witness (run_C13 k2_witness) = false /\ known_C13 k2_witness = [1].
+Proof. vm_compute. repeat split; reflexivity. Qed.
+
+Definition nonvacuous_case : c13case :=
+  CRun [(20000, 20000, 1); (20100, 20100, 1); (20101, 20101, 2)]%N
+       [[mkReq KWrite [[Put 0 30900 1]] [] ANone];
+        [mkReq KMutation [[Put 1 101 101; Put 2 102 102; Put 0 10102 1]] [1; 2]%N ANone;
+         mkReq KDeletion [[Del 1 20000]] [1%N] ANone; mkReq KCompute [[]] [] ANone]]
+       [mkReq KNodes [[Put 1 105 105]; [Put 1 106 106]] [1%N] ANone] (FKill 17).
+Lemma nonvacuous : wf_case nonvacuous_case = true /\ known_C13 nonvacuous_case = [] /\
+  run_C13 nonvacuous_case = [1; -1; 1;  0; -1; 1;  0; -1; 1;  0; -1; 1;  0; -1; 0;  0; 6; 1; 1; 1; 1; 1].
+Proof. vm_compute. repeat split; reflexivity. Qed.
